@@ -72,7 +72,7 @@ func init() {
 		Rule: "every ordered pair of the operand alphabet (coefficients x exponents x signs across the decimal128 range) goes through each of the 9 arithmetic operator spellings and 6 comparators, every single operand through unary +/-, abs, ceil, floor and to_number, " +
 			"every triple of a sub-alphabet through sum and avg; each operand is delivered as json.Number, as a backtick literal and as a decimal128 value; the result is compared with the exact rational result from math/big " +
 			"(exact when representable in 34 digits, within one unit of the 34th digit otherwise, not-a-number error on division by zero and overflow); non-trivial = a non-zero number or true; distinct_nontrivial counts distinct such outcomes",
-		Phases: []core.Phase{{Name: "arith", Build: "instr", Fn: c05Run}},
+		Phases: []core.Phase{{Name: "arith", Build: "instr", Fn: c05Run}, {Name: "compose", Build: "instr", Fn: composeRun("C05", 1)}},
 		Judge:  c05Judge,
 		Assumptions: []string{
 			"operands have at most 34 significant digits and lie in the normal decimal128 range (others are abstained)",
@@ -370,5 +370,8 @@ func c05Lists(thorough bool, do func(c05Point)) {
 }
 
 func c05Judge(r *core.Run, phase string, pt map[string]any) *core.Violation {
+	if phase == "compose" {
+		return composeJudge(r, "C05", pt)
+	}
 	return c05Check(r, c05Point{Form: pstr(pt, "form"), Op: pstr(pt, "op"), X: pstr(pt, "x"), Y: pstr(pt, "y"), Z: pstr(pt, "z"), Delivery: pstr(pt, "delivery")})
 }
